@@ -499,7 +499,9 @@ func Supervise(id string, o RunOpts) int {
 	if shards < 1 {
 		shards = 1
 	}
-	work := filepath.Join(o.Root, ".work", id)
+	// VERIF_WORK_SUFFIX: a run against a scratch copy (tools/runmuts.sh) gets a work directory of its own, so that it can
+	// run next to a run of the same property against /repo
+	work := filepath.Join(o.Root, ".work", id+os.Getenv("VERIF_WORK_SUFFIX"))
 	os.RemoveAll(work)
 	os.MkdirAll(work, 0o755)
 	bin := o.Bin
@@ -914,7 +916,7 @@ func finish(ck *Check, o RunOpts, known *KnownFile, results []*CaseResult, crash
 	if !floorOK {
 		ev["coverage_floor_missed"] = floorMsg
 	}
-	if _, err := os.Stat(filepath.Join(o.Root, ".work", id, "STOP")); err == nil {
+	if _, err := os.Stat(filepath.Join(o.Root, ".work", id+os.Getenv("VERIF_WORK_SUFFIX"), "STOP")); err == nil {
 		ev["stopped_early"] = "a violation was recorded: the cases not yet started were skipped"
 	}
 	b, _ := json.MarshalIndent(ev, "", " ")
